@@ -3,7 +3,7 @@ import re
 from pyvc import vc, lemmas
 from pyvc.report import REFUTED, UNDECIDED
 
-_TAG = re.compile(r"/(C\d\d):")
+_TAG = re.compile(r"/((?:C\d\d,?)+):")        # a clause may carry several properties: "C09,C14:no-earlier-bin-fits"
 
 # contract target -> function keys used by the T3 stand-ins (falsifier link: a failing inductive obligation looks there for a concrete input)
 ALIASES = {
@@ -125,7 +125,8 @@ def run_contracts(rep, prop, crefs, level="quick", with_lemmas=False, also=(), o
         replay_and_crosscheck(rep, prop, res, obs)
         for ob in obs:
             m = _TAG.search(ob.id)
-            foreign = m is not None and m.group(1) != prop and m.group(1) not in also
+            tags = set(m.group(1).split(",")) if m is not None else set()
+            foreign = m is not None and prop not in tags and not (tags & set(also))
             if foreign and ("/post/" in ob.id or "/call:" in ob.id or "/raise/" in ob.id or "/C07:" in ob.id):
                 continue
             if only_tagged and (m is None or foreign) and ob.status != UNDECIDED:
